@@ -733,10 +733,14 @@ package main
 //@   requires [C14] s != nil && (s.multi == nil ==> rheld(s.subsLock)) && (s.multi != nil ==> s.multi.multi == nil && rheld(s.multi.subsLock))
 //@   modifies nothing
 //@   locksafe
+// A terminating session tells every topic it is attached to (a notice that is dropped leaves the dead session
+// attached and the user's online count wrong for good).
 //@ func (s *Session) unsubAll()
 //@   requires [C14] s != nil
 //@   modifies *
 //@   locksafe
+//@   loop 1
+//@     iterates [C14] every_topic_told: sentTotal() == prev(sentTotal()) + 1
 //@ func (s *Session) onBackgroundTimer()
 //@   requires [C14] s != nil
 //@   modifies *
